@@ -244,6 +244,26 @@ def _op_bvp(ctx, op, state):
         if d > 2 * ODE_ENVELOPE * max(tol_used, state.get("loosest_tol", 0.0)):
             ctx.violate("transform-vs-direct", "bvp", sig, f"solution through transform {tspec} ({mode_key}) differs from the solution obtained directly / through another transform by {d:.3g}")
         ctx.probes.hit("transform-vs-direct-compared")
+    # results handed out earlier belong to the caller: a later evaluation (same number of points, other points) must
+    # not change them
+    keep = yc.copy()
+    x2 = np.linspace(a + 0.013 * (b - a), b - 0.021 * (b - a), 25)
+    o2 = _outcome(lambda: np.asarray(sol(x2), dtype=float))
+    if o2[0] == "ok":
+        if not np.array_equal(yc, keep, equal_nan=True):
+            ctx.violate("result-overwritten", "bvp", sig, "an array returned by the solution callable changed when the callable was evaluated again at other points")
+        e2 = _errors(P, o2[1], x2)
+        if max(e2) / tol_used > ODE_ENVELOPE:
+            ctx.violate("accuracy", "bvp", sig, f"second evaluation of the solution callable is off by {max(e2):.3g}")
+    if not derivs:
+        # a scalar point must give the same value as a one-element array (the closure has a branch for it)
+        xs = float(xc[7])
+        osc = _outcome(lambda: np.asarray(sol(xs), dtype=float))
+        if osc[0] == "ok":
+            vs = float(np.ravel(osc[1])[0])
+            if abs(vs - float(y0[7])) > 1e-12 * max(1.0, abs(float(y0[7]))):
+                ctx.violate("scalar-vs-array", "bvp", sig, f"solution callable at the scalar {xs} gives {vs}, at the array element {float(y0[7])}")
+            ctx.probes.hit("scalar-evaluation-compared")
     h = hash_array(yc)
     rk = (mode_key, beh, bseed, derivs, o.get("guess"), bool(o.get("share_tf")))
     if o.get("share_tf"):
@@ -273,17 +293,21 @@ def _op_ivp(ctx, op, state):
     tspec = tlist[ti] if mode == "tf" else None
     a, b = P["a"], P["b"]
     tf = OP.build_transform(tspec) if tspec is not None else None
-    twin = _explicit_twin(tspec, b)
+    twin = _explicit_twin(tspec, max(a, b))
     if twin is not None:
-        r = np.asarray(twin.transform(np.linspace(a, b, 9)), dtype=float)
+        r = np.asarray(twin.transform(np.linspace(min(a, b), max(a, b), 9)), dtype=float)
         if not (np.all(np.isfinite(r)) and np.all(np.diff(r) > 0)):
             ctx.log.add(ctx.step, "ivp", "skip-not-increasing")
             return
         if tspec[0] in ("exp", "power", "lininf") and tspec[3] is None:
             tf = twin  # the IVP solver sees a 2-element span first: give it the explicit scale
     fx, coeffs = OP.make_callables(P)
+    reverse = len(op) > 4 and bool(op[4])
+    if reverse:
+        a, b = b, a  # integrate from the upper end down to the lower end (a decreasing span, as solve_poisson_ivp does)
+        ctx.probes.hit("ivp-decreasing-span")
     y0 = [float(OP.sol_deriv(P["terms"], k, np.array([a]))[0]) for k in range(P["order"])]
-    sh = state.setdefault("shared", {})
+    sh = state.setdefault("shared" if not reverse else "shared_rev", {})
     kind = ("array", "list", "array", "tuple")[(P["n"] + P["order"]) % 4]
     if "y0" not in sh:
         sh["y0"] = np.array(y0, dtype=float) if kind == "array" else (tuple(y0) if kind == "tuple" else list(y0))
@@ -294,11 +318,15 @@ def _op_ivp(ctx, op, state):
     if oc[0] == "raise":
         ctx.violate("ivp-raise", "ivp", f"{sig}:{type(oc[1]).__name__}", f"solve_ode_ivp raised {oc[1]!r} (order {P['order']}, transform {tspec}, method {method})")
         return
-    xe = np.linspace(a, b, 25)
+    xe = np.linspace(min(a, b), max(a, b), 25)
     oe = _outcome(lambda: np.asarray(oc[1](xe.copy()), dtype=float))
     if oe[0] == "raise":
         ctx.violate("eval-raise", "ivp", f"{sig}:{type(oe[1]).__name__}", f"IVP solution callable raised {oe[1]!r} (transform {tspec})")
         return
+    keep = oe[1].copy()
+    o2 = _outcome(lambda: np.asarray(oc[1](np.linspace(min(a, b), max(a, b), 25)[::-1].copy()), dtype=float))
+    if o2[0] == "ok" and not np.array_equal(oe[1], keep, equal_nan=True):
+        ctx.violate("result-overwritten", "ivp", sig, "an array returned by the IVP solution callable changed when the callable was evaluated again at other points")
     errs = _errors(P, oe[1], xe)
     ratio = max(errs) / 1e-8
     ctx.probes.hit("ivp-solved")
@@ -374,7 +402,7 @@ class OdeSeamEngine:
                     o["guess"] = "zeros"
                 ops.append(["bvp", rng.choice(modes), beh, rng.randrange(1000), o])
             elif u < 0.78:
-                ops.append(["ivp", rng.choice(modes), rng.choice(["DOP853", "RK45", "Radau", "LSODA"]), rng.randrange(3)])
+                ops.append(["ivp", rng.choice(modes), rng.choice(["DOP853", "RK45", "Radau", "LSODA", "BDF", "RK23"]), rng.randrange(3), rng.random() < 0.25])
             elif u < 0.88:
                 ops.append(["perturb", rng.randrange(200), rng.choice([None, 0, 7])])
             else:
